@@ -413,9 +413,9 @@ def run_setunit(history, tree, idx, new_items, frac=False, style=None):
                     _ = str(r)
                 except Exception:  # noqa -- the VALUE may be outside an operator's domain (0 ** -1 ...): not our concern
                     pass
-                leaves[idx].unit = ustr(new_items)
-                if to_items(leaves[idx]._unit) != [list(x) for x in new_items]:
-                    raise CaseInvalid("unit setter parsed differently")
+                if to_items(_U().parse_unit_string(ustr(new_items)) if new_items else {}) != [list(x) for x in new_items]:
+                    raise CaseInvalid("the unit text does not parse to the intended map")     # the parser is C12
+                leaves[idx].unit = ustr(new_items)       # what the setter does with it is under test
                 del w[:]
                 r.recalculate()
                 text = r.unit
